@@ -251,6 +251,7 @@ func (h *dbHarness) readDamaged(img *simfs.Disk, v rotVariant, st *kvmodel.State
 		}
 		var got []kvmodel.KV
 		var serr error
+		valueErrs := 0
 		step := it.Next
 		ok := false
 		if dir == 0 {
@@ -259,11 +260,25 @@ func (h *dbHarness) readDamaged(img *simfs.Disk, v rotVariant, st *kvmodel.State
 			ok = it.Last()
 			step = it.Prev
 		}
+		wantVal := map[string]string{}
+		for _, kv := range wantPts {
+			wantVal[kv.K] = kv.V
+		}
 		for ; ok; ok = step() {
 			val, verr := it.ValueAndErr()
 			if verr != nil {
-				serr = verr
-				break
+				// The failed fetch of one value does not end the iteration: a
+				// second attempt and the keys that follow are ordinary reads,
+				// and what they return without an error must be right.
+				valueErrs++
+				val, verr = it.ValueAndErr()
+				if verr != nil {
+					got = append(got, kvmodel.KV{K: string(it.Key()), V: "\x00<value unreadable>"})
+					continue
+				}
+				if w, present := wantVal[string(it.Key())]; !present || w != string(val) {
+					bad("a second ValueAndErr after a failed one", fmt.Sprintf("key %q: got %q, original %q", it.Key(), shortv(string(val)), shortv(w)))
+				}
 			}
 			got = append(got, kvmodel.KV{K: string(it.Key()), V: string(val)})
 		}
@@ -280,6 +295,20 @@ func (h *dbHarness) readDamaged(img *simfs.Disk, v rotVariant, st *kvmodel.State
 			detected = true
 			h.count("rot.detected.scan", 1)
 			continue
+		}
+		if valueErrs > 0 {
+			detected = true
+			h.count("rot.detected.value", int64(valueErrs))
+			// every value that was returned must be the original one; the
+			// unreadable ones are replaced by the original for the comparison
+			// of the key sequence
+			for i := range got {
+				if got[i].V == "\x00<value unreadable>" {
+					if w, present := wantVal[got[i].K]; present {
+						got[i].V = w
+					}
+				}
+			}
 		}
 		if dir == 1 {
 			for i, j := 0, len(got)-1; i < j; i, j = i+1, j-1 {
